@@ -467,7 +467,7 @@ func (e *MetaExecutor) ReadFilter(nodeID uint64, shardIDs []uint64, ctx context.
 		if _, err := DecodeTLVT(conn, &resp, e.timeout); err != nil {
 			return err
 		} else if resp.Err != nil {
-			return err
+			return resp.Err
 		}
 
 		return nil
